@@ -1104,8 +1104,8 @@ class Server(utils.EventEmitter):
                 self.send_response(bearer, response)
                 return
             length = len(attribute_value)
-            # Check the attribute value size
-            max_attribute_size = min(bearer.att_mtu - 3, 251)
+            # Check the attribute value size (a value that does not fit is truncated)
+            max_attribute_size = min(pdu_space_available - 2, 251)
             if len(attribute_value) > max_attribute_size:
                 # We need to truncate
                 attribute_value = attribute_value[:max_attribute_size]
@@ -1117,7 +1117,8 @@ class Server(utils.EventEmitter):
             length_value_tuple_list.append((length, attribute_value))
             pdu_space_available -= entry_size
 
-            if pdu_space_available <= 0:
+            # Stop when there is no room left for another length field
+            if pdu_space_available < 2:
                 break
 
         response = att.ATT_Read_Multiple_Variable_Response(
